@@ -4,6 +4,7 @@ CONSTANTS
  CapsN = {0, 1}
  MaxItemsN = 2
  MaxItems3 = 1
+ SplitCount = FALSE
  ErrItems1 = TRUE
  ErrItemsN = FALSE
 SPECIFICATION Spec
